@@ -1,5 +1,6 @@
 /- C08 — machine-checked witnesses of defects / excluded points -/
 import Compio.Lemmas.BufShape
+import Compio.Model.DirUtil
 
 namespace Compio.Cex.C08
 
@@ -77,5 +78,19 @@ theorem cast_length_false_eof_counterexample :
     hugeRead .cast (2 ^ 32) hello = [] ∧ (hugeRead .cast (2 ^ 32 + 5) hello).length = 5 ∧
     hugeRead .saturating (2 ^ 32) hello = hello := by
   decide
+
+/-- seed C08-3a (why the arms of `create_dir_all` are regenerated): with the re-check arm replaced by
+`Err(e) if e.kind() == AlreadyExists => return Ok(())`, `create_dir_all` answers `Ok` for an existing regular
+file and for a dangling symlink — nothing is a directory afterwards -/
+theorem already_exists_is_not_is_dir_counterexample :
+    let seeded : List Gen.DirBuilder.Arm :=
+      [⟨true, .always, .retOk⟩, ⟨false, .kindEq 2, .fall⟩, ⟨false, .kindEq 17, .retOk⟩, ⟨false, .always, .retErr⟩]
+    let ns : DirUtil.Ns := { ents := [(["f"], .file 0), (["dang"], .link 1 ["nowhere"])], nextIno := 2 }
+    (DirUtil.cda DirUtil.Ns.ops seeded Gen.DirBuilder.secondAttempt 2 ns ["f"]).2 = .ok () ∧
+    DirUtil.Ns.isDir ns ["f"] = false ∧
+    (DirUtil.cda DirUtil.Ns.ops seeded Gen.DirBuilder.secondAttempt 2 ns ["dang"]).2 = .ok () ∧
+    (DirUtil.cda DirUtil.Ns.ops Gen.DirBuilder.firstAttempt Gen.DirBuilder.secondAttempt 2 ns ["f"]).2
+      = .error FileRef.EEXIST := by
+  refine ⟨by rfl, by rfl, by rfl, by rfl⟩
 
 end Compio.Cex.C08
